@@ -131,6 +131,8 @@ func expClass(raw json.RawMessage) string {
 
 // Stats accumulates per-family counters.
 type Stats struct {
+	Distinct  sync.Map // distinct source texts whose tree was compared
+	NDistinct int64
 	mu      sync.Mutex
 	PerFam  map[string]*[6]int64 // lines, accept, reject, skip, dev, nontrivial
 	Samples []any
@@ -229,6 +231,9 @@ func handle(c *core.Ctx, l *Line, src string, st *Stats) error {
 	got := out.JSON()
 	if Same(got, l.Exp) {
 		if want == "accept" {
+			if _, seen := st.Distinct.LoadOrStore(src, true); !seen {
+				atomic.AddInt64(&st.NDistinct, 1)
+			}
 			st.add(l.Fam, 1)
 		} else {
 			st.add(l.Fam, 2)
@@ -272,6 +277,12 @@ func Cfg(c *core.Ctx, fams []string, nsel, fullMod int) string {
 		core.TLASet(c.Findings.OpenIDs()), core.TLASet(fams), nsel, c.Seed%1000, fullMod)
 }
 
+// MutCfg renders a configuration of spec/C04.tla (token-level mutants of the seed pool).
+func MutCfg(c *core.Ctx, fams []string, nsel int) string {
+	return fmt.Sprintf("CONSTANTS\n OpenDev = %s\n Fams = %s\n NSel = %d\n Salt = %d\n FullMod = 1\nINIT MInit\nNEXT MNext\nINVARIANT MEmit\nCHECK_DEADLOCK FALSE\n",
+		core.TLASet(c.Findings.OpenIDs()), core.TLASet(fams), nsel, c.Seed%1000)
+}
+
 var allFams = []string{"e1", "e2", "e3", "prim", "stmt", "nest", "seq", "lit", "key", "lex"}
 
 // Check is the C03 property check.
@@ -284,16 +295,32 @@ func Check(c *core.Ctx) (map[string]any, []string, error) {
 	}
 	nsel, fullMod := 6, 3
 	if c.Thorough() {
-		nsel, fullMod = 80, 1
+		nsel, fullMod = 200, 1
 	}
 	fams := allFams
 	if f := os.Getenv("C03_FAMS"); f != "" {
 		fams = strings.Split(f, ",")
 	}
 	runs := []RunCfg{{Name: "trees-and-token-sequences(" + strings.Join(fams, ",") + ")", Module: "C03", Cfg: Cfg(c, fams, nsel, fullMod), Seed: c.Seed}}
+	if c.Thorough() && os.Getenv("C03_FAMS") == "" {
+		// the accepted token-level mutants of spec/C04.tla are valid programs too: their trees are compared here
+		runs = append(runs, RunCfg{Name: "token-mutants-of-the-seed-pool(tree comparison)", Module: "C04", Cfg: MutCfg(c, []string{"mut"}, 400), Seed: c.Seed})
+	}
 	st, tlcStats, nLines, err := Drive(c, runs, handle)
 	if err != nil {
 		return nil, nil, err
+	}
+	// judge direction: random deeper programs generated here, classified by TLC
+	nJudge := 3000
+	if c.Thorough() {
+		nJudge = 40000
+	}
+	var judged map[string]any
+	if os.Getenv("C03_FAMS") == "" || os.Getenv("C03_JUDGE") != "" {
+		if judged, err = JudgeRandom(c, nJudge); err != nil {
+			return nil, nil, err
+		}
+		nLines += int64(judged["random_programs_judged"].(int))
 	}
 	// binding self-test: the same comparison with a seeded fault in the adapter must fail
 	self := selfTest()
@@ -322,8 +349,8 @@ func Check(c *core.Ctx) (map[string]any, []string, error) {
 	}
 	cov := map[string]any{
 		"states": states, "transitions": trans, "traces_validated_against_impl": nLines, "samples": st.Samples,
-		"tlc_runs": tlcStats, "families": per, "trees_compared_node_by_node": nontrivial, "binding_selftest": self,
-		"rule": "a TLC state is one syntax tree or token sequence; a line is one rendering of it (separators, line terminators, redundant parentheses, dropped semicolons); expected tree/rejection computed by Grammar!Classify; every tree-derived rendering also passed ParseProgram(Toks(tree)) = tree inside TLC",
+		"tlc_runs": tlcStats, "families": per, "evaluations": nLines, "distinct_nontrivial": st.NDistinct, "trees_compared_node_by_node": nontrivial, "binding_selftest": self, "judge_direction": judged,
+		"rule": "distinct_nontrivial = distinct source texts that the specification accepts and whose projected tree was compared node by node; a TLC state is one syntax tree or token sequence; a line is one rendering of it (separators, line terminators, redundant parentheses, dropped semicolons); expected tree/rejection computed by Grammar!Classify; every tree-derived rendering also passed ParseProgram(Toks(tree)) = tree inside TLC",
 	}
 	assume := []string{
 		"trusted: projection of otto's ast into the record shape of spec/Grammar.tla (harness/internal/c03/project.go), UTF-16 -> UTF-8 conversion of the source text, TLC",
